@@ -25,6 +25,7 @@
 -/
 import GherkinVerif.Lemmas.AstShape
 import GherkinVerif.Props.C03Tree
+import GherkinVerif.KDecide
 namespace GV
 open Spec
 
@@ -80,14 +81,14 @@ open Lemmas.Ex
 /-- the example tree of Props/C03Tree.lean is grammar-shaped, and from counter 5 its ids are
     5,…,14: data-table rows 5 6, step 7, examples rows 8 9, examples block 10, the scenario's
     three tags 11 12 13, the scenario 14 -/
-example : GrammarShaped docTree := by decide +kernel
+example : GrammarShaped docTree := by kdecide
 example : (docOf ((astOf [] docTree).run.run 5)).map canonicalIds = some [5, 6, 7, 8, 9, 10, 11, 12, 13, 14] := by
-  decide +kernel
+  kdecide
 example : (docOf ((astOf [] docTree).run.run 5)).map (fun d => d.feature.map fun f => f.children.map fun c =>
     match c with
     | .scenario s => [s.steps.map (·.id), s.examples.map (·.id), s.tags.map (·.id), [s.id]]
     | _ => []) = some (some [[[7], [10], [11, 12, 13], [14]]]) := by
-  decide +kernel
+  kdecide
 
 /-- its kind projection is the tree the parser's events rebuild into, so `C11_accepted_ast`
     applies to it (`C02_events_valid_tree`) -/
@@ -103,7 +104,7 @@ example :
         .node .ExamplesDefinition [.node .Examples [.leaf exTok]], .node .Step [.leaf stepTok]]]]]
     GrammarShaped bad = False ∧
     (docOf ((astOf [] bad).run.run 0)).map canonicalIds = some [1, 0, 2] := by
-  decide +kernel
+  kdecide
 
 end examples
 end GV
